@@ -96,6 +96,31 @@ Definition has_op_prefix (cfg : config) (w : list ascii) : bool :=
 
 Definition blank : ascii := " "%char.
 
+(* a quoted string whose body has backslash escapes or the other kind of quote (pyparsing's quotedString consumes a
+   backslash together with the character after it, and the other quote kind as a plain character): the body up to the
+   first unescaped delimiter, decoded as Python's string syntax decodes the token - a doubled backslash is one
+   backslash, backslash-quote (either kind) is that quote, a backslash before a character that is no escape of the
+   string syntax stays; any other escape is outside the model.  Returns (content, rest after the closing quote). *)
+Fixpoint scan_quoted (delim : ascii) (cs : list ascii) : option (list ascii * list ascii) :=
+  match cs with
+  | [] => None
+  | c :: r =>
+      if Ascii.eqb c delim then Some ([], r)
+      else if is_backslash c then
+        match r with
+        | [] => None
+        | d :: r' =>
+            match scan_quoted delim r' with
+            | None => None
+            | Some (l, rest) =>
+                if is_backslash d || is_quote d then Some (d :: l, rest)
+                else if keeps_backslash d then Some (c :: d :: l, rest)
+                else None
+            end
+        end
+      else match scan_quoted delim r with Some (l, rest) => Some (c :: l, rest) | None => None end
+  end.
+
 Fixpoint lex_go (cfg : config) (fuel : nat) (cs : list ascii) : option (list token) :=
   match fuel with
   | 0 => None
@@ -110,12 +135,24 @@ Fixpoint lex_go (cfg : config) (fuel : nat) (cs : list ascii) : option (list tok
       else if Ascii.eqb c ")"%char then cons_t TRP r
       else if is_quote c then
         let '(body, rest) := span (fun x => negb (is_quote x)) r in
+        (* the general form (escaped quotes, the other quote kind inside): scan_quoted *)
+        let general :=
+          match scan_quoted c r with
+          | None => None
+          | Some (content, rest') =>
+              if negb (forallb printable content) then None
+              else match rest' with
+                   | q2 :: _ => if Ascii.eqb q2 c then None
+                                else cons_t (TStr (string_of_list_ascii content)) rest'
+                   | [] => cons_t (TStr (string_of_list_ascii content)) rest'
+                   end
+          end in
         match rest with
         | [] => Some [TBad]                                   (* unterminated: nothing consumes the quote *)
         | q :: rest' =>
-          if negb (Ascii.eqb q c) then None                   (* the other quote kind inside: outside the model *)
+          if negb (Ascii.eqb q c) then general                (* the other quote kind inside *)
           else match unescape body with
-               | None => None                                 (* an escape the model does not cover *)
+               | None => general                              (* an escape unescape does not cover: escaped quotes *)
                | Some content =>
                    if negb (forallb printable content) then None
                    else match rest' with
